@@ -1,8 +1,710 @@
-//! C17 AsyncifyPool (Miri + native, no driver) — not built yet.
+//! C17 — `compio_driver::AsyncifyPool` on its own (no driver, no runtime):
+//! direct `dispatch` callers, 1–4 threads sharing one (cloned) pool — the
+//! dispatcher's `force_reuse_thread_pool` situation.
+//!
+//! Events at the job boundary: every job has an id; on entry
+//! `running.fetch_add(1)` (recording the maximum and the worker's thread id),
+//! on exit `fetch_sub`; a per-job run counter; a per-job "dropped without
+//! running" counter (the job's own `Drop`).
+//!
+//! Oracle:
+//! * every accepted job (`dispatch` returned `Ok`) ran exactly once;
+//! * every `Err(DispatchError(f))` hands back the SAME dispatchable (for the
+//!   struct flavour: id, nonce, heap canary and context pointer are compared;
+//!   for the closure flavour: the closure is dropped or re-dispatched and the
+//!   captured job's accounting must come out as exactly one of {ran once,
+//!   dropped unrun once}) and it has not run;
+//! * gauge: jobs running at once <= `thread_limit` (the property statement);
+//! * distinct worker threads alive at once <= `thread_limit` (the documented
+//!   meaning of the constructor argument) — decided only in scenarios whose
+//!   idle timeout is an hour (no worker can retire, so every distinct worker
+//!   thread id ever seen is alive at the end; workers killed by a panicking job
+//!   are discounted). Reported under its own signature;
+//! * after the idle timeout has passed (workers may retire) a later job still
+//!   runs; a burst right at the timeout edge loses nothing.
+//!
+//! Hangs: "an accepted job never ran" shows up as the completion wait not
+//! finishing: Miri reports the deadlock; natively a generous watchdog turns it
+//! into `inconclusive` (never a verdict from the clock).
 
-use vcommon::Args;
+use std::{
+    collections::HashSet,
+    sync::{
+        Arc, Condvar, Mutex,
+        atomic::{AtomicU8, AtomicUsize, Ordering},
+    },
+    thread::{self, ThreadId},
+    time::{Duration, Instant},
+};
 
-pub fn main(_args: &Args) {
-    eprintln!("c17m: not implemented");
-    std::process::exit(3);
+use compio_driver::{AsyncifyPool, DispatchError, Dispatchable};
+use vcommon::{Args, Report, Rng, json, panics};
+
+// ---------------------------------------------------------------------------
+// job accounting
+// ---------------------------------------------------------------------------
+
+struct Ctx {
+    running: AtomicUsize,
+    max_running: AtomicUsize,
+    ran: Vec<AtomicU8>,
+    dropped_unrun: Vec<AtomicU8>,
+    next_id: AtomicUsize,
+    completed: AtomicUsize,
+    panicked: AtomicUsize,
+    tids: Mutex<HashSet<ThreadId>>,
+    done_m: Mutex<()>,
+    done_cv: Condvar,
+    gate: Mutex<bool>,
+    gate_cv: Condvar,
+}
+
+impl Ctx {
+    fn new(cap: usize) -> Arc<Self> {
+        Arc::new(Self {
+            running: AtomicUsize::new(0),
+            max_running: AtomicUsize::new(0),
+            ran: (0..cap).map(|_| AtomicU8::new(0)).collect(),
+            dropped_unrun: (0..cap).map(|_| AtomicU8::new(0)).collect(),
+            next_id: AtomicUsize::new(0),
+            completed: AtomicUsize::new(0),
+            panicked: AtomicUsize::new(0),
+            tids: Mutex::new(HashSet::new()),
+            done_m: Mutex::new(()),
+            done_cv: Condvar::new(),
+            gate: Mutex::new(true),
+            gate_cv: Condvar::new(),
+        })
+    }
+
+    fn set_gate(&self, open: bool) {
+        *self.gate.lock().unwrap() = open;
+        self.gate_cv.notify_all();
+    }
+
+    fn pass_gate(&self) {
+        let mut g = self.gate.lock().unwrap();
+        while !*g {
+            g = self.gate_cv.wait(g).unwrap();
+        }
+    }
+}
+
+#[derive(Clone, Copy, Debug, PartialEq, Eq)]
+enum Body {
+    Imm,
+    Spin(u32),
+    Sleep(u32), // microseconds
+    Gated,
+    Panic,
+}
+
+/// The payload. Used directly (`impl Dispatchable`) or captured by a closure.
+struct Job {
+    id: usize,
+    nonce: u64,
+    ctx: Arc<Ctx>,
+    body: Body,
+    canary: Box<u64>,
+    ran: bool,
+}
+
+const CANARY_XOR: u64 = 0x5EED_C17A_11CE_0000;
+
+impl Job {
+    fn new(ctx: &Arc<Ctx>, body: Body, nonce: u64) -> Option<Self> {
+        let id = ctx.next_id.fetch_add(1, Ordering::SeqCst);
+        (id < ctx.ran.len()).then(|| Self {
+            id,
+            nonce,
+            ctx: ctx.clone(),
+            body,
+            canary: Box::new(nonce ^ CANARY_XOR),
+            ran: false,
+        })
+    }
+
+    fn intact(&self) -> bool {
+        *self.canary == self.nonce ^ CANARY_XOR
+    }
+
+    fn execute(mut self) {
+        struct Exit<'a>(&'a Ctx);
+        impl Drop for Exit<'_> {
+            fn drop(&mut self) {
+                self.0.running.fetch_sub(1, Ordering::SeqCst);
+                self.0.completed.fetch_add(1, Ordering::SeqCst);
+                let _g = self.0.done_m.lock().unwrap();
+                self.0.done_cv.notify_all();
+            }
+        }
+        self.ran = true;
+        let ctx = self.ctx.clone();
+        let r = ctx.running.fetch_add(1, Ordering::SeqCst) + 1;
+        ctx.max_running.fetch_max(r, Ordering::SeqCst);
+        ctx.ran[self.id].fetch_add(1, Ordering::SeqCst);
+        ctx.tids.lock().unwrap().insert(thread::current().id());
+        let _exit = Exit(&ctx);
+        if !self.intact() {
+            // recorded as a double run so that the scenario check trips
+            ctx.ran[self.id].fetch_add(100, Ordering::SeqCst);
+        }
+        match self.body {
+            Body::Imm => {}
+            Body::Spin(n) => {
+                for _ in 0..n {
+                    std::hint::spin_loop();
+                }
+            }
+            Body::Sleep(us) => thread::sleep(Duration::from_micros(us as u64)),
+            Body::Gated => ctx.pass_gate(),
+            Body::Panic => {
+                ctx.panicked.fetch_add(1, Ordering::SeqCst);
+                // no panic hook, no message: the worker thread dies quietly
+                std::panic::resume_unwind(Box::new("c17m: job panics on purpose"));
+            }
+        }
+    }
+}
+
+impl Drop for Job {
+    fn drop(&mut self) {
+        if !self.ran {
+            self.ctx.dropped_unrun[self.id].fetch_add(1, Ordering::SeqCst);
+        }
+    }
+}
+
+impl Dispatchable for Job {
+    fn run(self: Box<Self>) {
+        (*self).execute()
+    }
+}
+
+// ---------------------------------------------------------------------------
+// scenario
+// ---------------------------------------------------------------------------
+
+#[derive(Clone, Debug)]
+enum Phase {
+    /// Gate closed: callers dispatch gated jobs until each is refused (or a cap
+    /// is hit); then exactly the accepted jobs are inside at once.
+    Gated,
+    /// Each caller dispatches `n` jobs drawn from `mix`; a refused job is
+    /// retried after a yield (like the drivers' `push_blocking`) with
+    /// probability `retry`/4, else abandoned (dropped by the caller).
+    Churn { n: usize, mix: u8, retry: u8 },
+}
+
+#[derive(Clone, Debug)]
+struct Step {
+    /// idle time before the phase, in units of a quarter of the pool timeout
+    /// (0 = none, 4 = exactly the timeout = edge, 12 = workers surely retired)
+    idle_q: u8,
+    phase: Phase,
+}
+
+#[derive(Clone, Debug)]
+struct Scenario {
+    limit: usize,
+    sharers: usize,
+    /// pool idle timeout in microseconds; `None` = one hour (no retirement)
+    timeout_us: Option<u64>,
+    closures: bool,
+    steps: Vec<Step>,
+    seed: u64,
+}
+
+impl Scenario {
+    fn gen_random(rng: &mut Rng, small: bool, max_limit: usize, max_sharers: usize) -> Self {
+        let limit = if rng.chance(1, 3) { rng.range(1, 2.min(max_limit)) } else { rng.range(1, max_limit) };
+        let sharers = if rng.chance(1, 3) { 1 } else { rng.range(1, max_sharers) };
+        let timeout_us = if rng.chance(1, 2) {
+            None
+        } else if small {
+            Some(*rng.pick(&[200u64, 1000, 5000]))
+        } else {
+            Some(*rng.pick(&[5_000u64, 10_000, 20_000]))
+        };
+        let nsteps = if small { rng.range(1, 3) } else { rng.range(2, 5) };
+        let steps = (0..nsteps)
+            .map(|i| {
+                let idle_q = if timeout_us.is_none() || i == 0 {
+                    0
+                } else {
+                    *rng.pick(&[0u8, 0, 3, 4, 5, 12])
+                };
+                let phase = if rng.chance(1, 3) {
+                    Phase::Gated
+                } else {
+                    Phase::Churn {
+                        n: if small { rng.range(2, 6) } else { rng.range(20, 400) },
+                        // bit0 imm, bit1 spin, bit2 sleep, bit3 panic
+                        mix: (rng.range(1, 7) as u8) | if rng.chance(1, 8) { 8 } else { 0 },
+                        retry: rng.below(5) as u8,
+                    }
+                };
+                Step { idle_q, phase }
+            })
+            .collect();
+        Self {
+            limit,
+            sharers,
+            timeout_us,
+            closures: rng.chance(1, 2),
+            steps,
+            seed: rng.next_u64(),
+        }
+    }
+
+    fn to_json(&self) -> vcommon::Value {
+        json!({
+            "limit": self.limit, "sharers": self.sharers, "timeout_us": self.timeout_us, "closures": self.closures,
+            "seed": self.seed.to_string(),
+            "steps": self.steps.iter().map(|s| match &s.phase {
+                Phase::Gated => json!({"idle_q": s.idle_q, "phase": "gated"}),
+                Phase::Churn { n, mix, retry } => json!({"idle_q": s.idle_q, "phase": "churn", "n": n, "mix": mix, "retry": retry}),
+            }).collect::<Vec<_>>(),
+        })
+    }
+
+    fn from_json(v: &vcommon::Value) -> Option<Self> {
+        Some(Self {
+            limit: v["limit"].as_u64()? as usize,
+            sharers: v["sharers"].as_u64()? as usize,
+            timeout_us: v["timeout_us"].as_u64(),
+            closures: v["closures"].as_bool()?,
+            seed: v["seed"].as_str()?.parse().ok()?,
+            steps: v["steps"]
+                .as_array()?
+                .iter()
+                .map(|s| {
+                    Some(Step {
+                        idle_q: s["idle_q"].as_u64()? as u8,
+                        phase: if s["phase"] == "gated" {
+                            Phase::Gated
+                        } else {
+                            Phase::Churn {
+                                n: s["n"].as_u64()? as usize,
+                                mix: s["mix"].as_u64()? as u8,
+                                retry: s["retry"].as_u64()? as u8,
+                            }
+                        },
+                    })
+                })
+                .collect::<Option<Vec<_>>>()?,
+        })
+    }
+}
+
+/// What one caller thread found.
+#[derive(Default)]
+struct CallerLog {
+    accepted: Vec<usize>,
+    abandoned: Vec<usize>,
+    refusals: usize,
+    retries: usize,
+    findings: Vec<(&'static str, String)>,
+}
+
+enum Refused {
+    Struct(Job),
+    Closure(Box<dyn FnOnce() + Send + 'static>),
+}
+
+/// One dispatch attempt. `Ok(())` accepted; `Err(back)` refused.
+fn dispatch_once(pool: &AsyncifyPool, job: Job, closures: bool, id: usize, nonce: u64, ctx: &Arc<Ctx>, log: &mut CallerLog) -> Result<(), Refused> {
+    if closures {
+        // a concrete closure type (what `spawn_blocking` / the drivers pass)
+        pool.dispatch(move || job.execute()).map_err(|DispatchError(f)| Refused::Closure(Box::new(f)))
+    } else {
+        match pool.dispatch(job) {
+            Ok(()) => Ok(()),
+            Err(DispatchError(back)) => {
+                if back.id != id || back.nonce != nonce || !back.intact() || !Arc::ptr_eq(&back.ctx, ctx) || back.ran {
+                    log.findings.push((
+                        "handed-back-different-dispatchable",
+                        format!("dispatch refused job {id} but returned an object with id {} / damaged contents", back.id),
+                    ));
+                }
+                Err(Refused::Struct(back))
+            }
+        }
+    }
+}
+
+fn redispatch(pool: &AsyncifyPool, r: Refused) -> Result<(), Refused> {
+    match r {
+        Refused::Struct(j) => pool.dispatch(j).map_err(|e| Refused::Struct(e.0)),
+        Refused::Closure(f) => pool.dispatch(f).map_err(|e| Refused::Closure(e.0)),
+    }
+}
+
+fn pick_body(rng: &mut Rng, mix: u8) -> Body {
+    loop {
+        match rng.below(4) {
+            0 if mix & 1 != 0 => return Body::Imm,
+            1 if mix & 2 != 0 => return Body::Spin(rng.range(10, if cfg!(miri) { 60 } else { 3000 }) as u32),
+            2 if mix & 4 != 0 => return Body::Sleep(rng.range(10, if cfg!(miri) { 100 } else { 400 }) as u32),
+            3 if mix & 8 != 0 && rng.chance(1, 6) => return Body::Panic,
+            _ if mix & 7 == 0 => return Body::Imm,
+            _ => {}
+        }
+    }
+}
+
+fn caller(pool: AsyncifyPool, ctx: Arc<Ctx>, sc: &Scenario, phase: &Phase, mut rng: Rng, deadline: Instant) -> CallerLog {
+    let mut log = CallerLog::default();
+    let (n, mix, retry, gated) = match phase {
+        Phase::Gated => (sc.limit + 2, 0, 0, true),
+        Phase::Churn { n, mix, retry } => (*n, *mix, *retry, false),
+    };
+    for _ in 0..n {
+        let body = if gated { Body::Gated } else { pick_body(&mut rng, mix) };
+        let nonce = rng.next_u64();
+        let Some(job) = Job::new(&ctx, body, nonce) else { break };
+        let id = job.id;
+        let mut r = dispatch_once(&pool, job, sc.closures, id, nonce, &ctx, &mut log);
+        loop {
+            match r {
+                Ok(()) => {
+                    log.accepted.push(id);
+                    break;
+                }
+                Err(back) => {
+                    log.refusals += 1;
+                    if ctx.ran[id].load(Ordering::SeqCst) != 0 {
+                        log.findings.push(("refused-job-ran", format!("dispatch handed job {id} back but it has (also) run")));
+                    }
+                    let again = !gated && (rng.below(4) as u8) < retry && Instant::now() < deadline;
+                    if again {
+                        log.retries += 1;
+                        thread::yield_now();
+                        r = redispatch(&pool, back);
+                    } else {
+                        drop(back);
+                        if ctx.dropped_unrun[id].load(Ordering::SeqCst) != 1 {
+                            log.findings.push((
+                                "handed-back-different-dispatchable",
+                                format!("dropping what dispatch handed back for job {id} did not drop job {id}"),
+                            ));
+                        }
+                        log.abandoned.push(id);
+                        break;
+                    }
+                }
+            }
+        }
+        if gated && log.refusals > 0 {
+            break;
+        }
+        if rng.chance(1, 8) {
+            thread::yield_now();
+        }
+    }
+    log
+}
+
+#[cfg(not(miri))]
+fn census() -> Option<usize> {
+    // smallest of three samples: exiting threads linger in /proc for a moment
+    let once = || std::fs::read_dir("/proc/self/task").ok().map(|d| d.count());
+    let a = once()?;
+    let b = once()?;
+    let c = once()?;
+    Some(a.min(b).min(c))
+}
+
+#[cfg(miri)]
+fn census() -> Option<usize> {
+    None
+}
+
+struct Outcome {
+    sig: String,
+    saturated: bool,
+    findings: Vec<(String, String)>,
+    inconclusive: Option<String>,
+    jobs: usize,
+    refusals: usize,
+    retire_seen: bool,
+    max_running: usize,
+    workers_seen: usize,
+}
+
+fn run_scenario(sc: &Scenario, watchdog: Duration) -> Outcome {
+    // upper bound on the number of job ids this scenario can allocate
+    let cap: usize = sc
+        .steps
+        .iter()
+        .map(|s| match s.phase {
+            Phase::Gated => (sc.limit + 2) * sc.sharers,
+            Phase::Churn { n, .. } => n * sc.sharers,
+        })
+        .sum();
+    let ctx = Ctx::new(cap);
+    let timeout = sc.timeout_us.map_or(Duration::from_secs(3600), Duration::from_micros);
+    let pool = AsyncifyPool::new(sc.limit, timeout);
+    let mut findings: Vec<(String, String)> = Vec::new();
+    let mut inconclusive = None;
+    let who = if sc.sharers == 1 { "single-caller" } else { "shared-pool" };
+    let mut accepted_total = 0usize;
+    let mut accepted_ids: Vec<usize> = Vec::new();
+    let mut abandoned_ids: Vec<usize> = Vec::new();
+    let mut refusals = 0;
+    let mut saturated = false;
+    let mut exact_saturation = false;
+    let mut retire_seen = false;
+    let mut pattern = String::new();
+    let base_rng = Rng::new(sc.seed);
+    'steps: for (si, step) in sc.steps.iter().enumerate() {
+        // ---- idle before the phase
+        if step.idle_q > 0 {
+            if let Some(us) = sc.timeout_us {
+                thread::sleep(Duration::from_micros(us * step.idle_q as u64 / 4 + if step.idle_q >= 8 { 500 } else { 0 }));
+                if step.idle_q >= 8 {
+                    // coverage evidence only (native): nothing but the main
+                    // thread is left, so every worker has retired
+                    retire_seen |= census() == Some(1);
+                }
+            }
+            pattern.push(match step.idle_q {
+                0..=3 => 'i',
+                4..=5 => 'e',
+                _ => 'r',
+            });
+        }
+        let gated = matches!(step.phase, Phase::Gated);
+        pattern.push(if gated { 'G' } else { 'C' });
+        if gated {
+            ctx.set_gate(false);
+        }
+        let deadline = Instant::now() + watchdog;
+        // ---- callers
+        let logs: Vec<CallerLog> = if sc.sharers == 1 {
+            vec![caller(pool.clone(), ctx.clone(), sc, &step.phase, base_rng.fork(si as u64 * 16), deadline)]
+        } else {
+            let hs: Vec<_> = (0..sc.sharers)
+                .map(|c| {
+                    let (pool, ctx, sc2, phase, rng) = (pool.clone(), ctx.clone(), sc.clone(), step.phase.clone(), base_rng.fork(si as u64 * 16 + c as u64));
+                    thread::spawn(move || caller(pool, ctx, &sc2, &phase, rng, deadline))
+                })
+                .collect();
+            hs.into_iter().map(|h| h.join().expect("caller thread")).collect()
+        };
+        let mut phase_refusals = 0;
+        for l in logs {
+            accepted_total += l.accepted.len();
+            accepted_ids.extend(l.accepted);
+            abandoned_ids.extend(l.abandoned);
+            phase_refusals += l.refusals;
+            for (c, w) in l.findings {
+                findings.push((format!("C17/pool/{c}"), w));
+            }
+        }
+        refusals += phase_refusals;
+        saturated |= phase_refusals > 0;
+        // ---- gate: wait until every accepted job is inside, look, open
+        let wait_until = |cond: &dyn Fn() -> bool| -> bool {
+            let mut g = ctx.done_m.lock().unwrap();
+            loop {
+                if cond() {
+                    return true;
+                }
+                if cfg!(miri) {
+                    // no wall clock: a job that never runs ends as a Miri deadlock
+                    // report; entering jobs do not signal, so poll with a yield
+                    drop(g);
+                    thread::yield_now();
+                    g = ctx.done_m.lock().unwrap();
+                } else {
+                    if Instant::now() > deadline {
+                        return false;
+                    }
+                    g = ctx.done_cv.wait_timeout(g, Duration::from_millis(2)).unwrap().0;
+                }
+            }
+        };
+        if gated {
+            let target = accepted_total;
+            let ok = wait_until(&|| ctx.completed.load(Ordering::SeqCst) + ctx.running.load(Ordering::SeqCst) >= target);
+            let inside = ctx.running.load(Ordering::SeqCst);
+            exact_saturation |= phase_refusals > 0 && inside == sc.limit;
+            ctx.set_gate(true);
+            if !ok {
+                inconclusive = Some(format!(
+                    "watchdog: accepted gated jobs did not all start (running {}, accepted {}, completed {})",
+                    inside,
+                    target,
+                    ctx.completed.load(Ordering::SeqCst)
+                ));
+                break 'steps;
+            }
+        }
+        // ---- every accepted job completes
+        let target = accepted_total;
+        if !wait_until(&|| ctx.completed.load(Ordering::SeqCst) >= target) {
+            inconclusive = Some(format!(
+                "watchdog: accepted jobs not completed (running {}, accepted {}, completed {})",
+                ctx.running.load(Ordering::SeqCst),
+                target,
+                ctx.completed.load(Ordering::SeqCst)
+            ));
+            break 'steps;
+        }
+    }
+    ctx.set_gate(true);
+    // ---- accounting
+    let max_running = ctx.max_running.load(Ordering::SeqCst);
+    let panicked = ctx.panicked.load(Ordering::SeqCst);
+    let workers_seen = ctx.tids.lock().unwrap().len();
+    if inconclusive.is_none() {
+        for id in &accepted_ids {
+            let (r, d) = (ctx.ran[*id].load(Ordering::SeqCst), ctx.dropped_unrun[*id].load(Ordering::SeqCst));
+            if r >= 100 {
+                findings.push(("C17/pool/accepted-job-corrupted".into(), format!("job {id} ran with a damaged payload")));
+            } else if r > 1 {
+                findings.push(("C17/pool/accepted-job-ran-twice".into(), format!("job {id} ran {r} times")));
+            } else if r == 0 {
+                findings.push(("C17/pool/accepted-job-not-run".into(), format!("job {id} was accepted, everything completed, it never ran (dropped: {d})")));
+            }
+            if d != 0 {
+                findings.push(("C17/pool/accepted-job-dropped".into(), format!("job {id} was accepted and also dropped without running")));
+            }
+        }
+        for id in &abandoned_ids {
+            let (r, d) = (ctx.ran[*id].load(Ordering::SeqCst), ctx.dropped_unrun[*id].load(Ordering::SeqCst));
+            if r != 0 {
+                findings.push(("C17/pool/refused-job-ran".into(), format!("job {id} was handed back and dropped by the caller, yet it ran")));
+            }
+            if d != 1 {
+                findings.push(("C17/pool/handed-back-different-dispatchable".into(), format!("job {id} handed back: drop count {d}")));
+            }
+        }
+    }
+    if max_running > sc.limit {
+        findings.push((
+            format!("C17/pool/running-exceeds-limit/{who}"),
+            format!("{max_running} jobs were running at once in a pool with thread_limit {} ({} caller thread(s))", sc.limit, sc.sharers),
+        ));
+    }
+    if sc.timeout_us.is_none() && workers_seen > sc.limit + panicked {
+        findings.push((
+            format!("C17/pool/workers-exceed-limit/{who}"),
+            format!(
+                "{workers_seen} distinct worker threads ran jobs and none can have retired (idle timeout 1 h, {panicked} killed by panicking jobs) \
+                 in a pool with thread_limit {} ({} caller thread(s))",
+                sc.limit, sc.sharers
+            ),
+        ));
+    }
+    drop(pool);
+    let sig = format!(
+        "pool:l{}:s{}:{}:{}:{}:sat{}:ret{}:pan{}",
+        sc.limit,
+        sc.sharers,
+        match sc.timeout_us {
+            None => "noretire",
+            Some(t) if t < 5000 => "t-tiny",
+            Some(_) => "t-short",
+        },
+        if sc.closures { "closure" } else { "struct" },
+        pattern,
+        if exact_saturation { "X" } else if saturated { "y" } else { "n" },
+        retire_seen as u8,
+        (panicked > 0) as u8
+    );
+    Outcome {
+        sig,
+        saturated,
+        findings,
+        inconclusive,
+        jobs: accepted_total,
+        refusals,
+        retire_seen,
+        max_running,
+        workers_seen,
+    }
+}
+
+fn evaluate(sc: &Scenario, rep: &mut Report, watchdog: Duration) -> bool {
+    let replay = || json!({"scenario": sc.to_json(), "reps": 500});
+    match panics::catch(|| run_scenario(sc, watchdog)) {
+        Ok(o) => {
+            rep.count("jobs_accepted", o.jobs as i64);
+            rep.count("refusals", o.refusals as i64);
+            rep.max("max_running_minus_limit", o.max_running as i64 - sc.limit as i64);
+            if sc.timeout_us.is_none() {
+                rep.max("workers_seen_minus_limit_noretire", o.workers_seen as i64 - sc.limit as i64);
+            }
+            rep.floor("saw-saturation", o.saturated);
+            rep.floor("saw-exact-saturation-at-gate", o.sig.contains(":satX"));
+            rep.floor("saw-retirement", o.retire_seen);
+            rep.eval(o.saturated.then(|| o.sig.clone()));
+            if rep.want_sample() && o.saturated {
+                rep.sample(json!({"scenario": sc.to_json(), "signature": o.sig, "jobs": o.jobs, "refusals": o.refusals,
+                                  "max_running": o.max_running, "workers_seen": o.workers_seen}));
+            }
+            if let Some(r) = o.inconclusive {
+                rep.inconclusive(&r);
+            }
+            let bad = !o.findings.is_empty();
+            let mut seen = HashSet::new();
+            for (sig, what) in o.findings {
+                if seen.insert(sig.clone()) {
+                    rep.violation(&sig, &what, replay());
+                }
+            }
+            bad
+        }
+        Err(info) => {
+            match info.origin() {
+                panics::Origin::Repo(_) => rep.violation(&format!("C17/pool/{}", info.sig()), &format!("panic inside compio: {}", info.message), replay()),
+                _ => rep.inconclusive(&format!("harness panic: {} at {}:{}", info.message, info.file, info.line)),
+            }
+            true
+        }
+    }
+}
+
+pub fn main(args: &Args) {
+    let leg = args.str("leg", "native");
+    let mut rep = Report::from_args("C17", &leg, args);
+    let watchdog = Duration::from_secs(args.u64("watchdog-s", 60));
+    if let Some(path) = args.get("replay") {
+        let text = std::fs::read_to_string(path).expect("replay file");
+        let v: vcommon::Value = vcommon::serde_json::from_str(&text).expect("replay json");
+        let Some(sc) = Scenario::from_json(&v["program"]["scenario"]) else {
+            rep.inconclusive("replay file has no c17m scenario (crash replays carry only stderr)");
+            rep.finish();
+            return;
+        };
+        let reps = args.usize("reps", v["program"]["reps"].as_u64().unwrap_or(500) as usize);
+        let reps = if cfg!(miri) { reps.min(60) } else { reps };
+        for _ in 0..reps {
+            if evaluate(&sc, &mut rep, watchdog) || rep.out_of_time() {
+                break;
+            }
+        }
+        rep.finish();
+        return;
+    }
+    let small = cfg!(miri) || args.flag("small");
+    let max_limit = args.usize("max-limit", if small { 3 } else { 8 }).max(1);
+    let max_sharers = args.usize("max-sharers", if small { 2 } else { 4 }).max(1);
+    let iters = args.iters(if small { 25 } else { 150 }, if small { 400 } else { 4000 });
+    let base = Rng::new(args.seed()).fork(args.shard() + 1);
+    // Shift Miri's own schedule stream per shard (its seed is per process).
+    for _ in 0..(args.shard() * 3 + args.seed() % 11) {
+        thread::yield_now();
+    }
+    for i in 0..iters {
+        if rep.out_of_time() {
+            break;
+        }
+        let mut rng = base.fork(i as u64);
+        let sc = Scenario::gen_random(&mut rng, small, max_limit, max_sharers);
+        evaluate(&sc, &mut rep, watchdog);
+    }
+    rep.finish();
 }
